@@ -2433,7 +2433,8 @@ class Sequence(Construct):
         retlist = ListContainer()
         for i,sc in enumerate(self.subcons):
             try:
-                subobj = next(objiter)
+                # a list cut short by StopIf while parsing has no items for the remaining members
+                subobj = next(objiter, None) if sc.flagbuildnone else next(objiter)
                 if sc.name:
                     context[sc.name] = subobj
 
